@@ -22,7 +22,7 @@ type hgen struct {
 func newHgen(r *common.Rng) *hgen {
 	g := &hgen{r: r, now: bubbleStart, nobody: map[int]bool{}, mutated: map[int]bool{}}
 	g.c.Engine = "replay"
-	g.c.Cfg = Cfg{KeySeed: r.U64(), KeyLen: common.Pick(r, []int{16, 32}), EIH: r.Chance(1, 3), Segmented: r.Chance(1, 4)}
+	g.c.Cfg = Cfg{KeySeed: r.U64(), KeyLen: common.Pick(r, []int{16, 32}), EIH: r.Chance(1, 3), Segmented: r.Chance(1, 4), Fallback: r.Chance(1, 3)}
 	if r.Chance(1, 4) {
 		g.c.Cfg.PrefixLen = r.Range(1, 8)
 	}
